@@ -172,6 +172,10 @@ func genC11Programs(thorough, inWorker bool) c10Gen {
 				rest = append(rest, j)
 			}
 		}
+		// phase 2: module-level, binding and workgroup jobs before the (many) function-level ones
+		sort.SliceStable(rest, func(a, b int) bool {
+			return strings.IndexByte("mbwfst", rest[a].kind) < strings.IndexByte("mbwfst", rest[b].kind)
+		})
 		jobs = append(first, rest...)
 		split = len(first)
 	}
